@@ -75,6 +75,9 @@ def step_table(tier):
     add('OP_LOAD_LOCAL', [], None, l0='STR'); add('OP_STORE_LOCAL', ['STR'], None, l0='ARR_STR')      # symbolic slot index
     add('OP_LOAD_GLOBAL', [], None, g0='STR'); add('OP_STORE_GLOBAL', ['STR'], None, g0='STR')        # symbolic global index
     add('OP_STORE_LOCAL', ['ALIAS0'], imm(0, 0), l0='STR')                                             # store a value into the slot that already holds it
+    for k in ('STR', 'INT'):
+        add('OP_LOAD_LOCAL', [k], {'SYM_FRAME': None}); add('OP_STORE_LOCAL', [k], {'SYM_FRAME': None})
+    add('OP_LOAD_LOCAL', [], {'SYM_FRAME': None}); add('OP_STORE_LOCAL', [], {'SYM_FRAME': None})   # OP_RET with an arbitrary frame base: no verdict (out of memory), outside the bound
     add('OP_LOAD_UPVALUE', [], {'FRAME_CLOSURE': None}, g0='CLOSURE'); add('OP_STORE_UPVALUE', ['STR'], {'FRAME_CLOSURE': None}, g0='CLOSURE')
     add('OP_LOAD_UPVALUE'); add('OP_STORE_UPVALUE', ['STR'])
     arith = ('OP_ADD', 'OP_SUB', 'OP_MUL', 'OP_DIV', 'OP_MOD')
